@@ -2,6 +2,7 @@
 //! on generated cases and writes `op input result` lines for the extracted Coq model to check.
 //! usage: dbg-harness <property> <seed> <quick|thorough> <shard> <nshards> <outfile>
 mod c11;
+mod c16;
 mod kmers;
 mod val;
 
@@ -37,6 +38,7 @@ fn main() {
     match prop {
         "C10" => kmers::c10(&mut out, &mut rng, &tier),
         "C11" => c11::c11(&mut out, &mut rng, &tier),
+        "C16" => c16::c16(&mut out, &mut rng, &tier),
         _ => {
             eprintln!("unknown property {}", prop);
             std::process::exit(2);
